@@ -199,7 +199,7 @@ func (w *world) gettersIdx(pos position, s, key string, sts []setting) (wrongInd
 	for si, st := range sts {
 		sg := classify(s, st, single)
 		segs := expect(key, pos.sep, st)
-		opts := st.opts(pos.sep)
+		opts := w.optsFor(st, pos.sep)
 		want := "name"
 		if sg.index {
 			want = "index"
